@@ -63,9 +63,14 @@ PROPERTY JoinLimit
 """
 
 
+ON_STEP = None      # set by a driver: callback(world, event) installed into every world (e.g. C08's key probe)
+
+
 def world(topology, seed, settings=None):
     t = TOPOLOGIES[topology]
-    return OnionWorld(seed=seed, names=t["names"], exits=t["exits"], origins=t["origins"], settings=settings)
+    w = OnionWorld(seed=seed, names=t["names"], exits=t["exits"], origins=t["origins"], settings=settings)
+    w.on_step = ON_STEP
+    return w
 
 
 # weights of the random driver; a profile switches families of actions on
